@@ -41,7 +41,7 @@ def _cmd(b, path, timeout):
     return [Z3_OLD, '-T:%d' % timeout, path]
 
 
-def solve_file(path, timeout, backends=('z3e', 'z3', 'cvc5')):
+def solve_file(path, timeout, backends=('z3e', 'z3', 'cvc5', 'z3old')):
     """portfolio: all back ends start at once on the same file, the first `unsat` wins and the others are killed.
     returns (verdict, backend, ms, log)  verdict in unsat | sat | unknown"""
     t0 = time.time()
@@ -72,7 +72,7 @@ def solve_file(path, timeout, backends=('z3e', 'z3', 'cvc5')):
     return verdict, used, ms, log
 
 
-def discharge(obls, theory_axioms, timeout=10, jobs=16, keep_dir=None, backends=('z3e', 'z3', 'cvc5')):
+def discharge(obls, theory_axioms, timeout=10, jobs=16, keep_dir=None, backends=('z3e', 'z3', 'cvc5', 'z3old')):
     d = tempfile.mkdtemp(prefix='gvc-smt-')
     try:
         files = []
